@@ -3,7 +3,9 @@ package c10
 import (
 	"context"
 	"fmt"
+	"sync"
 	"testing"
+	"time"
 
 	awsv2 "github.com/aws/aws-sdk-go-v2/aws"
 	kmsv2svc "github.com/aws/aws-sdk-go-v2/service/kms"
@@ -106,4 +108,91 @@ func TestAWSPluginsWipeDataKey(t *testing.T) {
 	}
 	kit.Rec.Enumerated(total, nontrivial)
 	kit.Rec.LabelN("aws-plugin-cases", total)
+}
+
+// retainingAEAD keeps every plaintext the plugin's AEAD hands out.
+type retainingAEAD struct {
+	appencryption.AEAD
+	mu  sync.Mutex
+	out [][]byte
+}
+
+func (a *retainingAEAD) Decrypt(data, key []byte) ([]byte, error) {
+	out, err := a.AEAD.Decrypt(data, key)
+	if err == nil {
+		a.mu.Lock()
+		a.out = append(a.out, out)
+		a.mu.Unlock()
+	}
+	return out, err
+}
+
+// TestAWSPluginsSlowRegion: a region that is healthy but slow (1.3 s of real time per call).
+// Whatever the plugin does meanwhile, once the call has returned and everything it started has
+// had time to finish, the only key plaintext left is the one returned to the caller.
+func TestAWSPluginsSlowRegion(t *testing.T) {
+	ctx := context.Background()
+	regions := []string{"us-west-2", "us-east-1"}
+	var total int64
+	for _, kind := range []string{"v1", "v2"} {
+		w := fakes.NewKMSWorld(regions)
+		spy := &retainingAEAD{AEAD: aead.NewAES256GCM()}
+		arn := w.ARNMap()
+		var p appencryption.KeyManagementService
+		var err error
+		if kind == "v1" {
+			k, e := v1kms.NewAWS(spy, regions[0], arn)
+			if e == nil {
+				for i := range k.Clients {
+					k.Clients[i].KMS = fakes.KMSV1{R: w.Regions[k.Clients[i].Region]}
+				}
+			}
+			p, err = k, e
+		} else {
+			p, err = v2kms.NewBuilder(spy, arn).WithPreferredRegion(regions[0]).WithAWSConfig(awsv2.Config{}).
+				WithKMSFactory(func(cfg awsv2.Config, _ ...func(*kmsv2svc.Options)) v2kms.AWSClient {
+					return fakes.KMSV2{R: w.Regions[cfg.Region]}
+				}).Build()
+		}
+		if err != nil {
+			t.Fatalf("build %s: %v", kind, err)
+		}
+		sk := []byte("0123456789abcdef0123456789abcdef")
+		env, err := p.EncryptKey(ctx, append([]byte(nil), sk...))
+		if err != nil {
+			t.Fatalf("EncryptKey: %v", err)
+		}
+		w.Reset()
+		w.Regions[regions[0]].Delay = 1300 * time.Millisecond
+		got, derr := p.DecryptKey(ctx, env)
+		time.Sleep(1700 * time.Millisecond) // anything still in flight finishes
+		total++
+		if derr != nil || string(got) != string(sk) {
+			msg := fmt.Sprintf("%s plugin: DecryptKey with a slow preferred region failed: %v", kind, derr)
+			kit.Rec.Violation(msg)
+			t.Fatalf("C10 violated: %s", msg)
+		}
+		for _, ret := range w.Retained {
+			if !kit.AllZero(ret.Buf) {
+				msg := fmt.Sprintf("%s plugin: the data-key plaintext returned by %s.%s still holds key bytes after DecryptKey returned and all regional calls finished", kind, ret.Region, ret.Op)
+				kit.Rec.Violation(msg)
+				t.Fatalf("C10 violated: %s", msg)
+			}
+		}
+		spy.mu.Lock()
+		for i, o := range spy.out {
+			if len(o) > 0 && len(got) > 0 && &o[0] == &got[0] {
+				continue // the copy handed to the caller
+			}
+			if !kit.AllZero(o) {
+				msg := fmt.Sprintf("%s plugin: decrypted system key #%d produced by the AEAD (not the one returned to the caller) is still on the heap after DecryptKey returned and all regional calls finished", kind, i)
+				kit.Rec.Violation(msg)
+				spy.mu.Unlock()
+				t.Fatalf("C10 violated: %s", msg)
+			}
+		}
+		spy.mu.Unlock()
+	}
+	kit.Rec.Enumerated(total, total)
+	kit.Rec.LabelN("aws-plugin-slow-region", total)
 }
